@@ -43,6 +43,42 @@ def lemma_instances(I, c, env, lemmas):
     return out
 
 
+ALLOWED_DECORATORS = {"staticmethod", "classmethod", "property", "overload", "abstractmethod", "abc.abstractmethod", "typing.overload"}
+
+
+def signature_obligations(src, c):
+    """The contract speaks about the function BODY.  Two things outside the body can change what callers get:
+    a decorator (the body-level contract does not describe the decorated function) and a mutable default argument
+    (state shared between calls).  Both are excluded by obligation, on the real AST of this run."""
+    import ast as _ast
+    q = getattr(c, "real_name", None) or c.name.split("#")[0]
+    short = q.replace("htmltools.", "")
+    try:
+        fn = src.find(q)
+    except Exception:
+        return []
+    out = []
+    decs = [_ast.unparse(d) for d in fn.decorator_list]
+    bad = [d for d in decs if d not in ALLOWED_DECORATORS]
+    out.append(Obligation(f"G:{short}:undecorated", [], z3.BoolVal(not bad), q, "G",
+                          f"no decorator changes what callers get (decorators: {decs or 'none'}; a cache, wrapper or registration would not be described by a contract on the body)"))
+    def immutable(e):
+        if e is None or isinstance(e, _ast.Constant):
+            return True
+        if isinstance(e, _ast.Tuple):
+            return all(immutable(x) for x in e.elts)
+        if isinstance(e, _ast.UnaryOp) and isinstance(e.operand, _ast.Constant):
+            return True
+        if isinstance(e, (_ast.Name, _ast.Attribute)):
+            return True          # a named constant / sentinel
+        return False
+    defaults = list(fn.args.defaults) + [d for d in fn.args.kw_defaults if d is not None]
+    mut = [_ast.unparse(d) for d in defaults if not immutable(d)]
+    out.append(Obligation(f"G:{short}:immutable-defaults", [], z3.BoolVal(not mut), q, "G",
+                          f"default argument values are immutable (mutable defaults {mut or 'none'} would be state shared by every call)"))
+    return out
+
+
 def verify_contract(w, src, db, c, lemmas=None, timeout_ms=10000, relevance=None):
     lemma_fn = (lambda I, env: lemma_instances(I, c, env, lemmas or {})) if c.lemmas else None
     if lemma_fn is not None:
@@ -103,6 +139,7 @@ def _verify_contract(w, src, db, c, lemma_fn=None, timeout_ms=10000, relevance=N
         v = Verdict(f"R:{short}:subset", "unknown", "-", time.time() - t0, where=c.name,
                     note=f"function left the verified subset: {type(ex).__name__}: {ex}")
         return [v], dict(I.stats, seconds=time.time() - t0, obligations=0)
+    obs = list(obs) + signature_obligations(src, c)
     seen = set()
     for ob in obs:
         key = (ob.name, ob.goal.sexpr() if hasattr(ob.goal, "sexpr") else str(ob.goal), tuple(h.sexpr() for h in ob.hyps))
